@@ -134,13 +134,17 @@ def jobs_C01(tier, seed):
              # size supplied by a subscriber before submission (as the AWS CLI does): the
              # library then never measures the source itself
              ('seekable', 2, True), ('path', 0, True), ('duck', 1, True)]
+    # (user streams whose read(n) returns less than n before EOF are outside the property's domain -
+    #  the library reads each part with a single read(); tried in wave h and withdrawn, DESIGN 7.11)
     for (src, start, psize) in kinds:
         for mp in (3, 1000):
             scns = []
             for s_, t_, c_ in itertools.product(sizes, ts, cs):
                 if mp == 3 and s_ < t_:
                     continue     # adjuster only matters for multipart
-                tr = T_up(src, s_, start=start)
+                tr = T_up(src.split('/')[0], s_, start=start)
+                if '/' in src:
+                    tr['short'] = int(src.split('/')[1])
                 if psize:
                     tr['subs'] = [{'provide_size': True}]
                 scns.append(inline(scn([tr], cfg(multipart_threshold=t_, multipart_chunksize=c_),
@@ -229,6 +233,11 @@ def jobs_C02(tier, seed, want='C02', dsts=('path', 'seekable', 'nonseekable', 's
     for dst in dsts:
         if dst == 'special':
             continue
+        if dst == 'nonseekable':
+            # a highly concurrent manager (20 request threads) with a small io chunk
+            s = scn([T_dl(dst, 'o8')], cfg(max_request_concurrency=20, max_in_memory_download_chunks=4, io_chunksize=1,
+                                          max_io_queue_size=4), seed=seed)
+            jobs.append(job(f'sched dl {dst} conc=20', s, {'sched': 1}, want, max_execs=400000))
         for conc, win in ((2, 1), (2, 2), (3, 2)):
             s = scn([T_dl(dst, 'o5')], cfg(max_request_concurrency=conc, max_in_memory_download_chunks=win,
                                           max_io_queue_size=2), seed=seed)
@@ -513,6 +522,12 @@ def jobs_C08(tier, seed):
         tr[0]['subs'] = copy.deepcopy(two)
         s = scn(tr, cfg(max_request_concurrency=2), seed=seed, faults={'sites': ['s3:', 'stream:fatal', 'fs:write']})
         jobs.append(job(f'sched fault {name}', s, k, want, max_execs=500000))
+    # the submission itself fails (the user's stream breaks) while an earlier part is stopped in flight
+    for name in ('up-mp-nonseekable', 'up-mp-seekable'):
+        tr = copy.deepcopy(bt[name])
+        tr[0]['subs'] = copy.deepcopy(two)
+        s = scn(tr, cfg(max_request_concurrency=2), seed=seed, faults={'sites': ['src:read']})
+        jobs.append(job(f'sched2 fault src:read {name}', s, {'sched': 2, 'env': 1}, want, max_execs=300000))
     return jobs
 
 
@@ -524,7 +539,8 @@ def jobs_C09(tier, seed):
         for src, size in (('path', 5), ('seekable', 5), ('nonseekable', 5), ('path', 3), ('nonseekable', 3), ('seekable', 3)):
             for brs in (None, 1, 2):
                 for thr in (None, 2):
-                    s = inline(scn([T_up(src, size, start=1 if src == 'seekable' else 0)], seed=seed, rcc=rcc.split('/')[0],
+                    s = inline(scn([T_up(src.split('/')[0], size, start=1 if src.startswith('seekable') else 0,
+                                         **({'short': int(src.split('/')[1])} if '/' in src else {}))], seed=seed, rcc=rcc.split('/')[0],
                                    body_read_size=brs, faults={'sites': ['body:retry'], 'max_body_retries': 2},
                                    progress_threshold=thr))
                     if rcc.endswith('/http'):
@@ -592,6 +608,14 @@ def jobs_C10(tier, seed):
             s = scn(copy.deepcopy(trs), cfg(**a), seed=seed)
             jobs.append(job(f'assign{i} mix{n}:{[t["op"] for t in trs]}', s, BD(tier)['PLAIN'], want,
                             max_execs=30000 if tier == 'quick' else 500000))
+    # "a submitter blocks, rather than fails": also for a transfer that was just cancelled / failed while
+    # the stage it submits to is full
+    for trs in ([T_dl('path', 'o8')], [T_dl('nonseekable', 'o8')], [T_up('nonseekable', 7)]):
+        c = cfg(max_request_concurrency=2, max_io_queue_size=1, max_request_queue_size=1, max_in_memory_upload_chunks=1)
+        s = scn(copy.deepcopy(trs), dict(c), seed=seed, inject=[{'kind': 'cancel', 'target': 0}])
+        jobs.append(job(f'cancel with one-slot stages {trs[0]["op"]} {trs[0].get("dst", trs[0].get("src"))}', s, BD(tier)['CANCEL'], want, max_execs=300000))
+        s = scn(copy.deepcopy(trs), dict(c), seed=seed, faults={'sites': ['s3:GetObject', 's3:UploadPart', 'stream:fatal']})
+        jobs.append(job(f'fault with one-slot stages {trs[0]["op"]} {trs[0].get("dst", trs[0].get("src"))}', s, BD(tier)['FAULT'], want, max_execs=300000))
     return jobs
 
 
@@ -630,6 +654,13 @@ def jobs_C11(tier, seed):
         s = scn(trs, cfg(max_in_memory_upload_chunks=chunks, max_submission_concurrency=1, max_request_concurrency=1,
                          max_request_queue_size=4), seed=seed)
         jobs.append(job(f'up single-request streams x4 chunks={chunks}', s, k, want, max_execs=100000))
+    # "chunks of io_chunksize" whatever sizes the network reads return
+    for pat in ('one', 'alt', 'short1'):
+        for dst in ('nonseekable', 'seekable', 'path'):
+            for io in (2, 3):
+                s = scn([T_dl(dst, 'o8')], cfg(io_chunksize=io, multipart_chunksize=4, max_io_queue_size=1, max_request_concurrency=1),
+                        seed=seed, stream_pattern=pat)
+                jobs.append(job(f'dl short reads {pat} {dst} io={io}', s, {'sched': 0}, want, max_execs=2000))
     for win in (1, 2, 3):
         for ioq in (1, 2):
             for trs in ([T_dl('nonseekable', 'o8')], [T_dl('nonseekable', 'o8'), T_dl('nonseekable', 'o7')]):
@@ -660,6 +691,10 @@ def jobs_C12(tier, seed):
     s = scn([T_dl('nonseekable', 'o5'), T_dl('nonseekable', 'o6')],
             cfg(max_request_concurrency=2, max_submission_concurrency=2, max_in_memory_download_chunks=1), seed=seed)
     jobs.append(job('e2e two nonseekable downloads window=1', s, BD(tier)['PLAIN'], want, max_execs=400000))
+    # use_threads=False: the permits are taken and returned around tasks that already ran
+    for name in ('up-mp-nonseekable', 'dl-ranged-nonseekable', 'dl-single-nonseekable', 'up-mp-seekable', 'copy-mp', 'delete'):
+        s = inline(scn(copy.deepcopy(bt[name]), seed=seed, faults={'sites': ['s3:', 'stream:fatal']}))
+        jobs.append(job(f'e2e serial executor {name}', s, 1, want))
     # "after ANY set of transfers has finished": one of two transfers fails while shutdown() waits,
     # the other still has requests and writes to go
     for trs in ([T_up('nonseekable', 5), T_dl('path', 'o5')], [T_dl('nonseekable', 'o5'), T_dl('path', 'o6')]):
